@@ -224,4 +224,78 @@ def T_rename(src, suffix="_vp"):
     return out
 
 
-ALL = {"pass": T_pass, "const-swap": T_const, "if-not": T_ifnot, "return-temp": T_rettmp, "kwargs-order": T_kwargs, "rename-locals": T_rename}
+class _NoopLocal(ast.NodeTransformer):
+    def visit_FunctionDef(self, n):
+        self.generic_visit(n)
+        k = _docstring_offset(n.body)
+        n.body.insert(k, ast.Assign(targets=[ast.Name(id="_vp_unused", ctx=ast.Store())], value=ast.Constant(value=None)))
+        return n
+    visit_AsyncFunctionDef = visit_FunctionDef
+
+
+class _Docstring(ast.NodeTransformer):
+    def __init__(self):
+        self.n = 0
+
+    def visit_FunctionDef(self, n):
+        self.generic_visit(n)
+        if _docstring_offset(n.body) == 0:
+            n.body.insert(0, ast.Expr(value=ast.Constant(value="Documented by the self-test.")))
+            self.n += 1
+        return n
+    visit_AsyncFunctionDef = visit_FunctionDef
+
+
+class _Mirror(ast.NodeTransformer):
+    """a < b  ->  b > a   for simple (name / attribute / constant / subscript) operands"""
+
+    def __init__(self):
+        self.n = 0
+
+    @staticmethod
+    def _simple(x):
+        return isinstance(x, (ast.Name, ast.Attribute, ast.Constant, ast.Subscript))
+
+    def visit_Compare(self, n):
+        self.generic_visit(n)
+        m = {ast.Lt: ast.Gt, ast.Gt: ast.Lt, ast.LtE: ast.GtE, ast.GtE: ast.LtE}
+        if len(n.ops) == 1 and type(n.ops[0]) in m and self._simple(n.left) and self._simple(n.comparators[0]):
+            n.left, n.comparators[0] = n.comparators[0], n.left
+            n.ops = [m[type(n.ops[0])]()]
+            self.n += 1
+        return n
+
+
+def T_nooplocal(src):
+    return _apply(src, _NoopLocal)
+
+
+def T_docstring(src):
+    return _apply(src, _Docstring)
+
+
+def T_mirror(src):
+    return _apply(src, _Mirror)
+
+
+class _Log(ast.NodeTransformer):
+    def __init__(self):
+        self.n = 0
+
+    def visit_FunctionDef(self, n):
+        self.generic_visit(n)
+        k = _docstring_offset(n.body)
+        n.body.insert(k, ast.Expr(value=ast.Call(func=ast.Attribute(value=ast.Name(id="runLog", ctx=ast.Load()), attr="debug", ctx=ast.Load()), args=[ast.Constant(value="self-test")], keywords=[])))
+        self.n += 1
+        return n
+    visit_AsyncFunctionDef = visit_FunctionDef
+
+
+def T_log(src):
+    """insert `runLog.debug(...)` at the start of every function of a module that imports runLog"""
+    if "import runLog" not in src and "runLog," not in src and ", runLog" not in src:
+        return None
+    return _apply(src, _Log)
+
+
+ALL = {"log-lines": T_log, "unused-local": T_nooplocal, "add-docstrings": T_docstring, "mirror-comparisons": T_mirror, "pass": T_pass, "const-swap": T_const, "if-not": T_ifnot, "return-temp": T_rettmp, "kwargs-order": T_kwargs, "rename-locals": T_rename}
